@@ -123,6 +123,11 @@ fn items(its: &[Item], file: &str, modpath: &str, out: &mut Vec<String>) {
                 if m.attrs.iter().any(|a| a.to_token_stream().to_string().replace(' ', "").contains("cfg(test)")) { continue; }
                 if let Some((_, its2)) = &m.content { items(its2, file, &format!("{}::{}", modpath, m.ident), out); }
             }
+            Item::Trait(t) => {
+                let sup: Vec<String> = t.supertraits.iter().filter_map(|x| match x { TypeParamBound::Trait(t) => Some(js(&t.to_token_stream().to_string().replace(' ', ""))), _ => None }).collect();
+                out.push(format!("{{\"item\":\"trait\",\"file\":{},\"mod\":{},\"name\":{},\"attrs\":{},\"unsafe\":{},\"supertraits\":{}}}",
+                    js(file), js(modpath), js(&t.ident.to_string()), attrs(&t.attrs), t.unsafety.is_some(), arr(sup)));
+            }
             Item::Type(t) => out.push(format!("{{\"item\":\"type\",\"file\":{},\"mod\":{},\"name\":{},\"attrs\":{},\"generics\":{},\"ty\":{}}}",
                 js(file), js(modpath), js(&t.ident.to_string()), attrs(&t.attrs), generics(&t.generics), ty(&t.ty))),
             Item::Const(c) => out.push(format!("{{\"item\":\"const\",\"file\":{},\"mod\":{},\"name\":{},\"ty\":{},\"expr\":{}}}",
